@@ -283,7 +283,19 @@ type Acc struct {
 type RefV struct {
 	Cell *Cell
 	Path []Acc
-	Nil  bool
+	Nil  bool  // definitely nil
+	NilT *Term // when non-nil: the pointer is nil iff this holds (Cell is what it points to otherwise)
+}
+
+// nilTerm is the condition under which the pointer is nil.
+func (r *RefV) nilTerm() *Term {
+	if r.Nil {
+		return True
+	}
+	if r.NilT != nil {
+		return r.NilT
+	}
+	return False
 }
 
 // ObjV is an opaque external object (interface value, library struct) with ghost fields.
@@ -656,8 +668,16 @@ func mergeVal(c *Term, a, b Val) Val {
 		if x.Nil && y.Nil {
 			return x
 		}
-		if x.Cell == y.Cell && len(x.Path) == 0 && len(y.Path) == 0 && x.Nil == y.Nil {
+		if x.Cell == y.Cell && len(x.Path) == 0 && len(y.Path) == 0 && x.Nil == y.Nil && x.NilT == y.NilT {
 			return x
+		}
+		// one side nil, or same target with different nil-ness: a possibly-nil pointer to the non-nil side's target
+		if x.Nil || y.Nil || (x.Cell == y.Cell && len(x.Path) == 0 && len(y.Path) == 0) {
+			tgt := x
+			if x.Nil {
+				tgt = y
+			}
+			return &RefV{Cell: tgt.Cell, Path: tgt.Path, NilT: Ite(c, x.nilTerm(), y.nilTerm())}
 		}
 		panic(unsupported("merge of distinct pointers"))
 	case *TupleV:
@@ -736,7 +756,7 @@ func sameVal(a, b Val) bool {
 		return true
 	case *RefV:
 		y, ok := b.(*RefV)
-		return ok && (x == y || (x.Cell == y.Cell && len(x.Path) == 0 && len(y.Path) == 0 && x.Nil == y.Nil))
+		return ok && (x == y || (x.Cell == y.Cell && len(x.Path) == 0 && len(y.Path) == 0 && x.Nil == y.Nil && x.NilT == y.NilT))
 	case *TupleV:
 		y, ok := b.(*TupleV)
 		if !ok || len(x.Vs) != len(y.Vs) {
